@@ -42,6 +42,15 @@ CHECKS = {
  "C09": dict(level=MC, design="2/C09", technique="symbolic execution of the real kio.index lookup functions with symbolic version/key (hash-fork dict lookups) against an independent package walk; z3 search over the finite index tables",
    text="Every load_* function runs for every table key concretely and for every gap between table keys with a symbolic key, with the version symbolic over int16 and every EntityType member; each resolving path must return exactly the module/class found by walking the package directory, every other path must raise UnknownAPIKey iff the key is unknown, else UnknownEntity. Bijection of api_key_map, completeness and resolvability of schema_name_map are solver queries over the finite tables.",
    note="Names: all known plus six near-miss strings; arbitrary strings and non-int arguments are outside. Hash-hint rule (A2)."),
+ "C13": dict(level="other", design="2/C13", technique="z3 queries over fact tables extracted from the imported schema classes (finite; solver as search) plus construction probes of reader/writer for every class",
+   text="A finite configuration property: facts about all 1629 classes / 5094 fields are re-extracted from /repo on every run and each coherence rule (kafka_type vs declared Python type through a pinned table, nullability only with a wire null, tuple arrays, defaults inhabit the type, tag rules, resolvable defaults, derivable reader/writer) is decided by a z3 query 'exists row: rule broken'. Exhaustive over the finite table; the solver adds no reach beyond enumeration here, which is why the level is 'other' and not model checking.",
+   note="Exhaustive over the shipped classes; agreement with upstream definitions is C04 (not applicable)."),
+ "C14": dict(level="other", design="2/C14", technique="z3 queries over per-class, per-module, per-family and per-API fact tables extracted from the imported schema classes (finite; solver as search)",
+   text="Finite configuration property: module/class facts of all 666 version modules are re-extracted on every run; rules (shared version/flexibility/key/header per module, path = api/version/type, snake-cased class name, contiguous versions, flexibility never reverts, key constant and unique, requests and responses for the same versions) are z3 queries over the tables. Exhaustive; solver = search.",
+   note="The snake-case convention is restated independently in kv/props/c14.py."),
+ "C15": dict(level="other", design="2/C15", technique="z3 queries over dataclass-parameter facts and concrete mutation/copy/pickle probes for every class; symbolic execution of the real generated __eq__ on two independent symbolic instances per class",
+   text="Facts (frozen, eq, slots, kw_only, generated __hash__/__eq__, immutable annotations) and concrete probes for all 1633 classes as queries over the finite table, plus a symbolic lemma: the generated __eq__/__ne__ of each class runs on two independent symbolic instances and must agree with an independent field-wise equality term on every path; models with a == b are concretised and hashed on the real classes.",
+   note="Hash consistency relies on the stdlib dataclass contract (frozen and eq => hash of the field tuple) and is confirmed on the concretised models only."),
 }
 
 def cmd(i, tier):
